@@ -9,6 +9,9 @@ import (
 	"strconv"
 	"strings"
 	"text/template"
+	"unicode"
+	"unicode/utf16"
+	"unicode/utf8"
 
 	"github.com/robfig/soy/ast"
 	"github.com/robfig/soy/data"
@@ -160,7 +163,7 @@ func (s *state) walk(node ast.Node) {
 		s.js("null")
 	case *ast.StringNode:
 		s.js("'")
-		template.JSEscape(s.wr, []byte(node.Value))
+		jsEscape(s.wr, []byte(node.Value))
 		s.js("'")
 	case *ast.IntNode:
 		s.js(node.String())
@@ -206,7 +209,7 @@ func (s *state) walk(node ast.Node) {
 			}
 			first = false
 			s.js("\"")
-			template.JSEscape(s.wr, []byte(k))
+			jsEscape(s.wr, []byte(k))
 			s.js("\":")
 			s.walk(node.Items[k])
 		}
@@ -724,10 +727,29 @@ func (s *state) nodeFromValue(pos ast.Pos, val data.Value) ast.Node {
 	panic("unreachable")
 }
 
+// jsEscape writes the JavaScript-escaped form of b. It is template.JSEscape,
+// except that an unprintable character beyond the basic plane is written as a
+// surrogate pair: JSEscape writes \uXXXXX for it, which JavaScript reads as
+// \uXXXX followed by a digit.
+func jsEscape(w io.Writer, b []byte) {
+	var last = 0
+	for i := 0; i < len(b); {
+		var r, size = utf8.DecodeRune(b[i:])
+		if r > 0xFFFF && !unicode.IsPrint(r) {
+			template.JSEscape(w, b[last:i])
+			var r1, r2 = utf16.EncodeRune(r)
+			fmt.Fprintf(w, `\u%04X\u%04X`, r1, r2)
+			last = i + size
+		}
+		i += size
+	}
+	template.JSEscape(w, b[last:])
+}
+
 func (s *state) writeRawText(text []byte) {
 	s.indent()
 	s.js(s.bufferName, " += '")
-	template.JSEscape(s.wr, text)
+	jsEscape(s.wr, text)
 	s.js("';\n")
 }
 
